@@ -604,6 +604,36 @@ def cmd_determinism(n=40, props=None):
     return 0 if bad == 0 else 2
 
 
+def cmd_omptest(n=60):
+    """self-test of the simulated OpenMP runtime (sim/omptest.c): constructs with exact integer results under seeded
+    schedules (deferral, stealing, stalls, access-level preemption) on every OpenMP build variant"""
+    import plans
+    seed = int(os.environ.get('VERIF_SEED', DEFAULT_SEED))
+    bins = build_variants(['plain', 'asan', 'preempt'])
+    sim.RUN_DIR = make_rundir('omptest')
+    ws = sim.WorkerSet(bins, tag='omptest')
+    bad = runs = 0
+    try:
+        for i in range(n):
+            rng = random.Random(gen.derive_seed(seed, 'omptest', i))
+            variant = ('plain', 'asan', 'preempt')[i % 3]
+            w = gen.gen_world(rng, preempt=(variant == 'preempt'))
+            p = plans.base_plan('omptest%d' % i, w, trace=False)
+            p.stdin = ('tty', b'')
+            ix = [p.op_simple('T', rng.choice([1, 2, 3, 4, 5, 8, 9, 16]), rng.choice([0, 1, 2, 6, 7, 8, 20, 21, 64, 100, 199, 1000])) for _ in range(4)]
+            r = ws.run(variant, p, timeout=120)
+            runs += 1
+            ok = not r.crashed() and all(r.op(k) is not None and r.op(k).rc == 0 for k in ix) and not r.viol
+            if not ok:
+                bad += 1
+                print('OMP-SELFTEST-FAILED plan %d (%s): %s %s %s' % (i, variant, r.crash_class(), [(r.op(k).f if r.op(k) else None) for k in ix], r.viol[:2]))
+    finally:
+        ws.close()
+        shutil.rmtree(sim.RUN_DIR, ignore_errors=True)
+    print('omptest: %d plans x 4 self-test calls on plain/asan/preempt, %d failed' % (runs, bad))
+    return 0 if bad == 0 else 2
+
+
 def det_job(arg):
     prop, seed, i = arg
     mods = load_modules()
@@ -629,6 +659,8 @@ def main():
         return cmd_replay(a[1])
     if a[0] == 'determinism':
         return cmd_determinism(int(a[1]) if len(a) > 1 else 40, a[2:] or None)
+    if a[0] == 'omptest':
+        return cmd_omptest(int(a[1]) if len(a) > 1 else 60)
     if a[0] == 'selftest':
         build_variants(['plain', 'asan', 'preempt', 'serial'])
         return cmd_determinism(6)
